@@ -122,15 +122,17 @@ _vbi_pfc_demux_decode		(vbi_pfc_demux *	dx,
 
 			if ((int) dx->block.application_id < 0) {
 				int sh; /* structure header */
+				int sh0, sh1;
 
-				sh = vbi_unham16p (dx->block.block)
-					+ vbi_unham16p (dx->block.block + 2)
-					* 256;
+				sh0 = vbi_unham16p (dx->block.block);
+				sh1 = vbi_unham16p (dx->block.block + 2);
 
-				if (sh < 0) {
+				if ((sh0 | sh1) < 0) {
 					/* Hamming error. */
 					goto desynced;
 				}
+
+				sh = sh0 + sh1 * 256;
 
 				dx->block.application_id = sh & 0x1F;
 				dx->block.block_size = sh >> 5;
@@ -230,6 +232,7 @@ vbi_pfc_demux_feed		(vbi_pfc_demux *	dx,
 	if (0 == packet) {
 		unsigned int stream;
 		unsigned int ci;
+		int s0, s1;
 
 		pgno |= vbi_unham16p (buffer + 2);
 		if (pgno < 0)
@@ -240,10 +243,12 @@ vbi_pfc_demux_feed		(vbi_pfc_demux *	dx,
 			return TRUE;
 		}
 
-		subno = vbi_unham16p (buffer + 4)
-			+ vbi_unham16p (buffer + 6) * 256;
-		if (subno < 0)
+		s0 = vbi_unham16p (buffer + 4);
+		s1 = vbi_unham16p (buffer + 6);
+		if ((s0 | s1) < 0)
 			goto desynced;
+
+		subno = s0 + s1 * 256;
 
 		stream = (subno >> 8) & 15;
 		if (stream != dx->block.stream) {
